@@ -301,7 +301,7 @@ pub fn strategy() -> BoxedStrategy<Case> {
     (12i32..=32, 12i32..=32)
         .prop_flat_map(|(w, h)| {
             let ext = w.max(h) as f32;
-            let zoom = prop_oneof![12 => Just(1.0f32), 1 => Just(4096.0f32), 1 => Just(65536.0f32), 1 => Just(1.0f32 / 64.0)];
+            let zoom = prop_oneof![12 => Just(1.0f32), 1 => Just(4096.0f32), 1 => Just(65536.0f32), 1 => Just(1.0f32 / 64.0), 1 => Just(1.0f32 / 4096.0)];
             (Just((w, h)), path_strategy(ext), prop_oneof![3 => Just(IDENT), 4 => xf_invertible(6.0)], prop::bool::weighted(0.3), zoom)
         })
         .prop_map(|((w, h), (path, arcs), xf, as_clip, zoom)| {
